@@ -62,6 +62,14 @@ CLAIMED = {
             'then exactly the body\'s requests, then unlock t once, on return and on raise; the body\'s exception propagates; a refused lock runs '
             'neither body nor unlock; lock/unlock events of any program are well-bracketed. Random programs run as real `with m.locked()` blocks.',
             NOTE + 'the Python with-statement protocol is a trusted primitive.', 'DESIGN.md 5/C13'),
+    'C15': (T + ': trace-order theorems over all configurations; exhaustive configuration table on the real connect code',
+            'PARTIAL. Proved for every configuration (any number of credentials / subsystem candidates): with verification on a credential is '
+            'offered only if the pinned key matches, or known_hosts has the key under host or [host]:port, or the callback accepts; otherwise '
+            'the unknown-host error with no credential and no NETCONF traffic; every credential follows the key check; failed authentication '
+            'raises and nothing NETCONF is exchanged; TLS hello only after a successful handshake. Modelled: the cryptographic verdicts. '
+            'The whole finite configuration table runs through the real connect_ssh/_auth with real keys and known_hosts against a recording '
+            'transport, and real TLS handshakes with right / wrong CA and host name.',
+            NOTE + 'paramiko key exchange and signature checks, OpenSSL chain validation: environment.', 'DESIGN.md 5/C15'),
     'C16': (T + ': finite profile / isolation tables (decide +kernel) + non-interference by induction',
             'Proved over the tables regenerated from the 14 handler modules: every advertised name resolves to the class of its name, vendor '
             'operations take precedence and all standard ones remain, a base URI is always advertised (for all user extras), subsystem candidates '
